@@ -3,7 +3,9 @@ package tree
 import (
 	"context"
 	"fmt"
+	"math"
 
+	"github.com/sdcio/data-server/pkg/utils"
 	sdcpb "github.com/sdcio/sdc-protos/sdcpb"
 	"github.com/sdcio/yang-parser/xpath"
 	"github.com/sdcio/yang-parser/xpath/xutils"
@@ -31,6 +33,14 @@ func (y *yangParserEntryAdapter) valueToDatum(tv *sdcpb.TypedValue) xpath.Datum 
 		return xpath.NewBoolDatum(tv.GetBoolVal())
 	case *sdcpb.TypedValue_UintVal:
 		return xpath.NewNumDatum(float64(tv.GetUintVal()))
+	case *sdcpb.TypedValue_IntVal:
+		return xpath.NewNumDatum(float64(tv.GetIntVal()))
+	case *sdcpb.TypedValue_DoubleVal:
+		return xpath.NewNumDatum(tv.GetDoubleVal())
+	case *sdcpb.TypedValue_FloatVal:
+		return xpath.NewNumDatum(float64(tv.GetFloatVal()))
+	case *sdcpb.TypedValue_DecimalVal:
+		return xpath.NewNumDatum(float64(tv.GetDecimalVal().GetDigits()) / math.Pow10(int(tv.GetDecimalVal().GetPrecision())))
 	case *sdcpb.TypedValue_LeaflistVal:
 		datums := make([]xpath.Datum, 0, len(ttv.LeaflistVal.GetElement()))
 		for _, e := range ttv.LeaflistVal.GetElement() {
@@ -43,7 +53,8 @@ func (y *yangParserEntryAdapter) valueToDatum(tv *sdcpb.TypedValue) xpath.Datum 
 	case *sdcpb.TypedValue_IdentityrefVal:
 		return xpath.NewLiteralDatum(tv.GetIdentityrefVal().YangString())
 	default:
-		return xpath.NewLiteralDatum(tv.GetStringVal())
+		// all the remaining kinds are compared by their string representation
+		return xpath.NewLiteralDatum(utils.TypedValueToString(tv))
 	}
 }
 
